@@ -24,7 +24,7 @@ def game_case(game, port, ts, events):
 
 
 def gen_cases(tier, rng):
-    n = 100 if tier == "quick" else 1200
+    n = 100 if tier == "quick" else 6000
     cases = []
     for game in range(6):
         seeds = [rng.fork("g%d/%d" % (game, i)).next() % (1 << 48) for i in range(n)]
